@@ -6,6 +6,7 @@ import (
 	"go/token"
 	"go/types"
 	"math"
+	"regexp"
 	"sort"
 	"strings"
 
@@ -127,6 +128,7 @@ type explorer struct {
 	atomFn   func(expr string) (absVal, bool) // pattern atoms (consulted after the exact map)
 	canon    map[string]string                // actual parameter name -> canonical role name used by the rule (renaming a parameter must not matter)
 	stop     func(*ssa.BasicBlock) bool
+	raw      bool // do not rewrite inlined helper bodies into call form (used while the helper patterns are derived)
 	pureMemo bool // a condition that reads no memory and calls nothing is decided once per path, by its rendering
 	maxPaths int
 	out      []*pathOutcome
@@ -177,6 +179,21 @@ func (e *explorer) explore(from *ssa.BasicBlock) []*pathOutcome {
 	}
 	if from == nil {
 		from = e.f.Blocks[0]
+	}
+	if !e.raw && len(e.atoms) > 0 {
+		// atoms given on the inlined form of a helper also hold for its call form
+		alias := map[string]absVal{}
+		for k, v := range e.atoms {
+			alias[k] = v
+		}
+		for k, v := range e.atoms {
+			if d := e.c.deinline(k); d != k {
+				if _, dup := alias[d]; !dup {
+					alias[d] = v
+				}
+			}
+		}
+		e.atoms = alias
 	}
 	st := &exState{env: map[ssa.Value]symVal{}, onPath: map[*ssa.BasicBlock]bool{}, mem: map[string]symVal{}, dead: map[string]bool{}, decided: map[ssa.Value]bool{}}
 	e.walk(st, from, nil)
@@ -290,9 +307,13 @@ func (e *explorer) walk(st *exState, b, pred *ssa.BasicBlock) {
 					if pm {
 						st.decExpr[cv.expr] = true
 					}
-					st2.po.conds = append(st2.po.conds, condTaken{cv.expr, false, in.Cond})
+					ce, neg := cv.expr, false
+					for strings.HasPrefix(ce, "!") { // a negated condition is the condition, not taken
+						ce, neg = ce[1:], !neg
+					}
+					st2.po.conds = append(st2.po.conds, condTaken{ce, neg, in.Cond})
 					e.walk(st2, b.Succs[1], b)
-					st.po.conds = append(st.po.conds, condTaken{cv.expr, true, in.Cond})
+					st.po.conds = append(st.po.conds, condTaken{ce, !neg, in.Cond})
 					next = b.Succs[0]
 				}
 			case *ssa.Jump:
@@ -401,6 +422,23 @@ func constSym(k *ssa.Const) symVal {
 
 // atom substitutes the representative if expr is a declared atom.
 func (e *explorer) atom(s symVal) symVal {
+	if !e.raw {
+		// an inlined copy of a one-expression helper reads like a call of it (isOpen(x) for x.localMin.IsOpen):
+		// rules name the helper, the source may or may not
+		if d := e.c.deinline(s.expr); d != s.expr {
+			if s.vexpr == "" || s.vexpr == s.expr {
+				s.vexpr = ""
+			}
+			s.expr = d
+		}
+	}
+	if strings.HasPrefix(s.expr, "!") && s.abs.k == aUnknown {
+		inner := e.atom(symVal{expr: s.expr[1:]})
+		if inner.abs.k == aBool {
+			s.abs = boolVal(!inner.abs.b)
+			return s
+		}
+	}
 	if a, ok := e.atoms[s.expr]; ok {
 		s.abs = a
 	} else if e.atomFn != nil {
@@ -520,8 +558,18 @@ func (e *explorer) eval(st *exState, v ssa.Value) symVal {
 		return symVal{expr: v.Op.String() + e.val(st, v.X).expr}
 	case *ssa.BinOp:
 		x, y := e.val(st, v.X), e.val(st, v.Y)
-		r := symVal{expr: "(" + x.expr + " " + v.Op.String() + " " + y.expr + ")"}
-		r.abs = foldAbs(v.Op, x.abs, y.abs)
+		op := v.Op
+		// `2 == x.f` reads like `x.f == 2`: a constant operand of a comparison is written on the right
+		if _, lc := v.X.(*ssa.Const); lc {
+			if _, rc := v.Y.(*ssa.Const); !rc {
+				flip := map[token.Token]token.Token{token.EQL: token.EQL, token.NEQ: token.NEQ, token.LSS: token.GTR, token.GTR: token.LSS, token.LEQ: token.GEQ, token.GEQ: token.LEQ}
+				if f, ok := flip[op]; ok {
+					x, y, op = y, x, f
+				}
+			}
+		}
+		r := symVal{expr: "(" + x.expr + " " + op.String() + " " + y.expr + ")"}
+		r.abs = foldAbs(op, x.abs, y.abs)
 		return e.atom(r)
 	case *ssa.Convert:
 		x := e.val(st, v.X)
@@ -866,4 +914,137 @@ func pureCond(v ssa.Value, depth int) bool {
 		return pureCond(v.X, depth+1)
 	}
 	return false
+}
+
+// ---------- one-expression helpers ----------
+
+type helperPat struct {
+	name   string
+	re     *regexp.Regexp
+	params []int // capture group i belongs to parameter params[i]
+	n      int
+}
+
+var identTok = regexp.MustCompile(`[A-Za-z_][A-Za-z0-9_]*`)
+
+// helperPats derives, for every package-level function whose body is a single returned expression without calls or
+// stores (isOpen, isHotEdge, isJoined, getPolyType, isSamePolyType, isFront, isHorizontal ...), the rendering of that
+// expression with the parameters as holes.
+func (c *Ctx) helperPats() []helperPat {
+	if c.hpats != nil {
+		return c.hpats
+	}
+	c.hpats = []helperPat{}
+	var names []string
+	for n, m := range c.spkg.Members {
+		if f, ok := m.(*ssa.Function); ok && f.Blocks != nil && len(f.Params) >= 1 && len(f.Params) <= 2 && f.Signature.Results().Len() == 1 {
+			names = append(names, n)
+		}
+	}
+	sort.Strings(names)
+	for pass := 0; pass < 2; pass++ {
+		var out []helperPat
+		for _, n := range names {
+			f := c.spkg.Members[n].(*ssa.Function)
+			if len(f.Blocks) != 1 {
+				continue
+			}
+			outs := (&explorer{c: c, f: f, raw: pass == 0, maxPaths: 4}).explore(nil)
+			if len(outs) != 1 || outs[0].end != "return" || len(outs[0].stores) != 0 || len(outs[0].calls) != 0 || len(outs[0].ret) != 1 {
+				continue
+			}
+			body := outs[0].ret[0].expr
+			if strings.HasPrefix(body, n+"(") {
+				// second pass: the body was rewritten into a call of itself — keep the first-pass pattern
+				for _, old := range c.hpats {
+					if old.name == n {
+						out = append(out, old)
+					}
+				}
+				continue
+			}
+			hp := helperPat{name: n, n: len(f.Params)}
+			idx := map[string]int{}
+			for i, p := range f.Params {
+				idx[p.Name()] = i
+			}
+			var sb strings.Builder
+			sb.WriteString("^")
+			last := 0
+			for _, loc := range identTok.FindAllStringIndex(body, -1) {
+				tok := body[loc[0]:loc[1]]
+				pi, isParam := idx[tok]
+				// a parameter occurrence is an identifier not preceded by '.' (a field of the same name is not one)
+				if !isParam || (loc[0] > 0 && body[loc[0]-1] == '.') {
+					continue
+				}
+				sb.WriteString(regexp.QuoteMeta(body[last:loc[0]]))
+				sb.WriteString(`([A-Za-z_][A-Za-z0-9_.\[\]]*)`)
+				hp.params = append(hp.params, pi)
+				last = loc[1]
+			}
+			if len(hp.params) == 0 {
+				continue
+			}
+			sb.WriteString(regexp.QuoteMeta(body[last:]))
+			sb.WriteString("$")
+			hp.re = regexp.MustCompile(sb.String())
+			out = append(out, hp)
+		}
+		c.hpats = out
+	}
+	return c.hpats
+}
+
+// deinline rewrites expr to helper(args) when it is exactly the body of a one-expression helper.
+func (c *Ctx) deinline(expr string) string {
+	if c.hpatBusy {
+		return expr
+	}
+	if c.hpats == nil {
+		c.hpatBusy = true
+		c.helperPats()
+		c.hpatBusy = false
+	}
+	if len(expr) < 6 || !strings.Contains(expr, ".") {
+		return expr
+	}
+	if r := c.deinline1(expr); r != expr {
+		return r
+	}
+	// the negation of a helper that is a comparison: (x.outrec == nil) is !isHotEdge(x)
+	for _, p := range [][2]string{{" == ", " != "}, {" != ", " == "}} {
+		if i := strings.Index(expr, p[0]); i > 0 && strings.Count(expr, p[0]) == 1 && strings.HasPrefix(expr, "(") {
+			if r := c.deinline1(expr[:i] + p[1] + expr[i+len(p[0]):]); !strings.HasPrefix(r, "(") {
+				return "!" + r
+			}
+		}
+	}
+	return expr
+}
+
+func (c *Ctx) deinline1(expr string) string {
+	for _, hp := range c.hpats {
+		m := hp.re.FindStringSubmatch(expr)
+		if m == nil {
+			continue
+		}
+		args := make([]string, hp.n)
+		ok := true
+		for gi, pi := range hp.params {
+			if args[pi] != "" && args[pi] != m[gi+1] {
+				ok = false
+			}
+			args[pi] = m[gi+1]
+		}
+		for _, a := range args {
+			if a == "" {
+				ok = false
+			}
+		}
+		if ok {
+			return hp.name + "(" + strings.Join(args, ", ") + ")"
+		}
+	}
+	return expr
 }
